@@ -330,7 +330,7 @@ pub fn run_check(prop: &str, tier: &str) -> i32 {
         "C06" => c06::run(tier, &mut report),
         "C14" => {
             c14::run(tier, &mut report);
-            let s = pick(&["mem-ttl-range", "mem-ttl", "mem-core", "disk-v3", "disk-v3-ttl", "focus-v3-ttl"], thorough);
+            let s = pick(&["mem-ttl-range", "mem-nottl-stamped", "disk-nottl-stamped-v3", "mem-ttl", "mem-core", "disk-v3", "disk-v3-ttl", "focus-v3-ttl"], thorough);
             seq_check(prop, tier, s, &["C14"], budget * 0.3, &mut report);
             let bound = if thorough { 3 } else { 2 };
             schedprops::run_programs(concprogs::scan_programs(thorough), bound, 3000, budget * 0.3, &schedprops::judge_linearizable, None, &["C14"], &mut report);
